@@ -66,6 +66,9 @@ func vid(v ssa.Value) string {
 		if c.IsNil() {
 			return "nil"
 		}
+		if c.Value == nil {
+			return "const:zero"
+		}
 		return "const:" + c.Value.String()
 	}
 	return fmt.Sprintf("%s@%p", v.Name(), v)
@@ -113,7 +116,7 @@ func (e *PEnv) evalCond(cond ssa.Value) (val bool, known bool, key string, neg b
 			neg = !neg
 		}
 		if lok && rok {
-			eq := lc.IsNil() == rc.IsNil() && (lc.IsNil() || lc.Value.String() == rc.Value.String())
+			eq := lc.IsNil() == rc.IsNil() && (lc.IsNil() || (lc.Value != nil && rc.Value != nil && lc.Value.String() == rc.Value.String()))
 			return eq != neg, true, "", neg
 		}
 		if rok {
